@@ -147,3 +147,18 @@ Theorem gen_bbox_outside_zero ls b0 x y : polygon_query ls b0 x y -> BBox_includ
 Proof.
   intros H Hb. rewrite (windingNumberOfPoint_gen ROps Hneg_R), (bbox_outside_zero ls b0 x y H Hb). reflexivity.
 Qed.
+
+(* closed paths of lines, quadratics and cubics in general position (Proofs/C11curves.v): the same two theorems for the regenerated functions *)
+From BZ Require Import Proofs.C11curves.
+Theorem gen_mixed_even_odd srs b0 x y : mixed_query srs b0 x y ->
+  Path_pointIsInside ROps (map fst srs) (P x y) = Returns (Nat.odd (count_if (left_c x) srs)) /\
+  Nat.odd (count_if (left_c x) srs) = Nat.odd (count_if (right_c x) srs).
+Proof.
+  intro H. rewrite (pointIsInside_gen ROps Hneg_R). destruct (mixed_even_odd srs b0 x y H) as [-> E]. split; [reflexivity | exact E].
+Qed.
+Theorem gen_mixed_winding_number srs b0 x y : mixed_query srs b0 x y ->
+  Path_windingNumberOfPoint ROps (map fst srs) (P x y) = Returns (Z.abs (signed_if (left_c x) srs)) /\
+  Z.abs (signed_if (left_c x) srs) = Z.abs (signed_if (right_c x) srs).
+Proof.
+  intro H. rewrite (windingNumberOfPoint_gen ROps Hneg_R). destruct (mixed_winding_number srs b0 x y H) as [-> E]. split; [reflexivity | exact E].
+Qed.
